@@ -3,7 +3,7 @@ CONSTANTS
   Kind = "function"
   Starts <- StartsAll
   Certs <- BoolBoth
-  Tmpls <- TmplBoth
+  Tmpls <- TmplAll
   Drc0 <- DrcNamed
   EnvKinds <- EnvAll
   Interf <- InterfDeps
@@ -15,6 +15,7 @@ CONSTANTS
   GuardInactive = TRUE
   GuardHealth = TRUE
   OwnDelete = FALSE
+  CacheMiss = TRUE
 VIEW view
 ACTION_CONSTRAINT Emit
 CHECK_DEADLOCK FALSE
